@@ -174,6 +174,8 @@ def c06(tier, seed):
             for i in range(d["b"] - d["f"]):
                 extra.append(dict(d, op="as_mut_swap", arg=i))
     scns = [iter_script(d, "C06") for d in descs + extra]
+    # Clone of the iterator for an element type without drop glue but with an observable Clone
+    scns += [iter_script(dict(d, ety=e), "C06") for d in descs if d["op"] == "iter_clone" for e in ("plain", "plz")]
     c.cov["exhaustive"] = True
     c.cov["bounds"] = {"N": "0..%d" % (5 if tier == "quick" else 8), "args": "0..len+2", "positions": "every reachable (front, back)"}
     c.conform(binary, scns, "transitions")
@@ -295,6 +297,9 @@ def func_scripts(d, prop):
                 for tf in (["own"] if form[0] or form[1] else []) + (["ref"] if not (form[0] and form[1]) else []):
                     for pf in ("own", "ref"):
                         add([_mk("arr", n), {"op": "zipx", "recv": [1], "form": [tf], "side": side, "pform": pf, "panic_at": pa}], recv="mixed:%s:%s:%s" % (side, tf, pf))
+                if form[0] and form[1]:
+                    # ... and a result type without drop glue as well
+                    add([_mk("arr", n), {"op": "zipx_plain_out", "recv": [1], "form": ["own"], "side": side, "panic_at": pa}], recv="mixed-plain-out:%s" % side)
     return out
 
 
@@ -373,7 +378,7 @@ def c08(tier, seed):
     scns += clone_default_scripts([0, 1, 2, 3, 5] + big, "C08", False)
     c.cov["exhaustive"] = True
     c.cov["bounds"] = {"model N": "0..%d" % (4 if tier == "quick" else 6), "real-code N": sorted(set(d["n"] for d in descs)), "forms": "generate arr/box; map, fold: own/&/&mut/Box; zip: 9 stack forms + Box x Box; Clone, Default arr/box"}
-    c.conform(binary, with_etys(scns, ["tk", "zst", "plain"]), "order")
+    c.conform(binary, with_etys(scns, ["tk", "zst", "plain", "plz"]), "order")
     c.assumptions += ["element kinds: drop-tracked (needs_drop branch of the specialised zip bodies), drop-tracked zero-sized, and plain without drop glue (the ManuallyDrop branches)"]
     return c.finish()
 
@@ -455,7 +460,7 @@ def with_etys(scns, etys):
         for e in etys:
             if e != "tk" and (s.get("fuse_drop") or s.get("fuse_clone")):
                 continue
-            if e == "zst" and any(st.get("pass_mod", -1) >= 0 for st in s["steps"]):
+            if e in ("zst", "plz") and any(st.get("pass_mod", -1) >= 0 for st in s["steps"]):
                 continue
             t = dict(s)
             t["ety"] = e
@@ -683,7 +688,7 @@ def c03(tier, seed):
     c.conform(binary, with_etys(scns, ["tk"]), "tlc-histories")
     if tier != "quick":
         sub = rng.sample(scns, min(len(scns), 6000))
-        c.conform(binary, with_etys(sub, ["zst", "plain"]), "tlc-histories-zst-plain")
+        c.conform(binary, with_etys(sub, ["zst", "plain", "plz"]), "tlc-histories-zst-plain")
     # longer chained histories: TLC simulation of the same model, then the harness's own seeded driver
     sim = c.mc("MC_Pool", "MC_Pool_sim", workers=1, extra=["-simulate", "num=%d" % (60 if tier == "quick" else 600), "-depth", "200", "-seed", str(seed)])
     scns = [{"case": "sim", "steps": h["steps"], "d": {"kind": "tlc-simulation", "steps": h["steps"]}} for h in sim["scenarios"]]
@@ -775,7 +780,7 @@ def c02(tier, seed):
     for n in (14, 15, 16, 33, 97) + ((1024,) if tier != "quick" else ()):
         conv.append({"case": "conv", "prop": "C02", "ety": "tk", "steps": [_mk("arr", n), {"op": "into_array", "recv": [1]}, {"op": "from_native", "recv": [2]}, {"op": "into_native", "recv": [3]}, {"op": "from_array", "recv": [4]}],
                      "d": {"op": "byvalue-conversions", "n": n}})
-    c.conform(binary, with_etys(conv, ["tk", "zst", "plain"]), "conversions")
+    c.conform(binary, with_etys(conv, ["tk", "zst", "plain", "plz"]), "conversions")
     return c.finish()
 
 
@@ -902,7 +907,7 @@ def c11(tier, seed):
         owned.append({"case": "flatten", "prop": "C11", "ety": "tk", "steps": st, "d": {"op": "flatten/unflatten owned", "n": a, "m": b}})
     c.cov["exhaustive"] = True
     c.cov["bounds"] = {"pairs": "all (N, M) in 0..6 x 0..6 plus (1,1024), (1024,1), (16,64), (2,8), (8,2); owned, & and &mut forms"}
-    c.conform(binary, with_etys(owned, ["tk", "zst", "plain"]), "owned")
+    c.conform(binary, with_etys(owned, ["tk", "zst", "plain", "plz"]), "owned")
     return c.finish()
 
 
@@ -1048,6 +1053,8 @@ def c17(tier, seed):
         elif mode == "fixed":
             st["hints"] = [d["hints"][1], d["hints"][2]]
         scns.append({"case": "de-script", "prop": "C17", "ety": "tk", "steps": [st], "d": dict(d)})
+        # the same source presented as a binary (not human-readable) format: the contract does not mention the flag
+        scns.append({"case": "de-script-bin", "prop": "C17", "ety": "tk", "steps": [dict(st, hr=False)], "d": dict(d, human_readable=False)})
     lens = [0, 1, 2, 3, 4, 8] if tier == "quick" else [0, 1, 2, 3, 4, 8, 12, 16, 33, 97]
     for n in lens:
         # serialisation: call sequence and real formats; then round trips through real formats
@@ -1062,7 +1069,7 @@ def c17(tier, seed):
                                  "d": {"op": "deserialize", "src": src, "n": n, "l": l, "bad_at": b}})
     c.cov["exhaustive"] = True
     c.cov["bounds"] = {"model": "N in 0..%d, every 0/1 script of length <= N+2, an element error at every index, 14 hint modes" % (2 if tier == "quick" else 4), "real formats": "serde_json, serde_json::Value, bincode; N in %s" % lens}
-    c.conform(binary, with_etys(scns, ["tk", "zst", "plain"]), "serde")
+    c.conform(binary, with_etys(scns, ["tk", "zst", "plain", "plz"]), "serde")
     c.assumptions.append("outside the claim (and accepted either way): a SeqAccess that reports 0 elements left while still holding elements")
     return c.finish()
 
